@@ -64,6 +64,33 @@ Lemma query_start_needed_w :
   key_eqb (key_pq r) (key_pq r') = false /\ rq_path r <> rq_path r'.
 Proof. cbv zeta. repeat split; try (vm_compute; reflexivity). vm_compute. discriminate. Qed.
 
+(** the key is made from the raw path: whichever of its two keys an entry is stored under for one URI and looked up
+    with for another, equal keys mean equal RAW paths — also when the percent-decoded paths coincide *)
+Lemma key_is_raw_path_x r r' k k' :
+  In k [key_pq r; key_p r] -> In k' [key_pq r'; key_p r'] -> key_eqb k k' = true -> rq_path r = rq_path r'.
+Proof.
+  destruct (key_eqb_uri r r') as (PQ & P & A1 & A2).
+  intros [<-|[<-|[]]] [<-|[<-|[]]] E.
+  - apply PQ in E. exact (proj1 E).
+  - rewrite A2 in E. discriminate.
+  - rewrite A1 in E. discriminate.
+  - apply P in E. exact E.
+Qed.
+
+(** ... and it has to be: kvarn routes on the raw path.  With the path of the key percent-decoded (the seeded change
+    C03-6) "/page" and "/p%61ge" share both keys, although a host whose only Prepare extension is bound to "/page"
+    answers the first with the page and the second with 404 *)
+Definition w9_handlers : list hspec := [mkH (B "/page") 0 200 (B "generated page") [] SP_FULL 0 false []].
+Definition w9_status (p : bytes) : N :=
+  f_status (fx_fat (fst (fst (compute_x true w9_handlers [] (repeat 0 9) (rq_get p None) None true)))).
+Lemma decoded_key_collides_refuted_w :
+  let r := rq_get (B "/page") None in let r' := rq_get (B "/p%61ge") None in
+  rq_path r <> rq_path r' /\
+  key_eqb (key_pq_decoded r) (key_pq_decoded r') = true /\ key_eqb (key_p_decoded r) (key_p_decoded r') = true /\
+  key_eqb (key_pq r) (key_pq r') = false /\ key_eqb (key_p r) (key_p r') = false /\
+  w9_status (rq_path r) = 200 /\ w9_status (rq_path r') = 404.
+Proof. cbv zeta. split; [vm_compute; discriminate|]. repeat split; vm_compute; reflexivity. Qed.
+
 Section UriLevel.
   Variable hstate : Type.
   Variable compute : hstate -> request -> option (bytes * option bytes) -> bool -> fatx * hstate * list bytes.
